@@ -115,8 +115,18 @@ def run_frag(case):
                 net.ctl[src].node.fragmentation = op[1]
             elif op[0] == "maxlen":
                 net.ctl[src].node.max_message_length = op[1]
+        for bn, bt in case.get("before", ()):
+            # earlier messages of the same sender: whatever they leave in the node's buffers must not show in the next frame
+            try:
+                net.ctl[src].node.send(L.Header(dst, bt), bytes((3 * j + bn) & 0xFF for j in range(bn)))
+            except (ValueError, SimHorizon):
+                pass
+            net.settle(300)
+        out["n0"] = len(net.med.log)
         h = L.Header(dst, typ)
         h.frame_id = fid
+        if case.get("reserved"):
+            h.reserved = case["reserved"]
         frame = L.Frame(h, bytes(msg) if case["bytes"] else bytearray(msg))
         try:
             out["ret"] = net.ctl[src].node.write(frame) if case["via_write"] else net.ctl[src].node.send(h, frame.message)
@@ -133,9 +143,14 @@ def run_frag(case):
     except Exception as e:  # noqa: BLE001
         res.fail(exc_signature("C11/raises", e), repr(e))
         return res
+    del net.med.log[:out.get("n0", 0)]
     frames = [f for f in air_frames(net.med, src=str(src))]
     got = [f["pl"] for f in frames]
     want = rfrag.fragment(src, dst, fid, typ, msg)
+    if case.get("reserved") and len(msg) <= 24:
+        want = [rfrag.pack_header(src, dst, fid, typ, case["reserved"]) + msg]  # an unfragmented frame is the caller's header + message
+    if case.get("before"):
+        res.label("after-earlier-messages")
     if len(msg) > 24:
         res.nontrivial = True
     # documented: fragmentation is on by default with max_message_length 144; changing `fragmentation` sets the limit
@@ -251,13 +266,26 @@ def _history_cases(depth):
     return gen
 
 
+def _after_earlier_messages():
+    """the judged write follows 1..2 earlier messages of the same sender (fragmented or not); the caller's reserved byte set or not"""
+    for before in ([[60, 84]], [[25, 1]], [[24, 65]], [[144, 127]], [[60, 84], [10, 2]], [[0, 0]]):
+        for n in (0, 10, 24, 25, 60):
+            for rsv in (0, 7):
+                for via_write in (False, True):
+                    src, dst, nodes = (0o1, 0, [0, 0o1]) if n % 2 else (0, 0o4, [0, 0o4])
+                    yield {"kind": "direct", "msg": bytes((5 * j + n) & 0xFF for j in range(n)).hex(), "type": 66, "id": 500 + n, "src": src, "dst": dst,
+                           "nodes": nodes, "bytes": True, "via_write": via_write, "before": before, "reserved": rsv}
+
+
 def parts(tier):
     if tier == "quick":
         return [Part("headers", "gen", _hdr_strategy, n=3000),
+                Part("write-after-earlier-messages", "enum", _after_earlier_messages, exhaustive=True),
                 Part("fragments-after-config-history-depth3", "enum", _history_cases(3), exhaustive=True),
                 Part("fragments-direct-all-lengths", "enum", _frag_cases(False, 2), exhaustive=True),
                 Part("fragments-line-all-lengths", "enum", _frag_cases(True, 1), exhaustive=True)]
     return [Part("headers", "gen", _hdr_strategy, n=200000),
+            Part("write-after-earlier-messages", "enum", _after_earlier_messages, exhaustive=True),
             Part("fragments-after-config-history-depth5", "enum", _history_cases(5), exhaustive=True),
             Part("fragments-direct-all-lengths", "enum", _frag_cases(False, 40), exhaustive=True),
             Part("fragments-line-all-lengths", "enum", _frag_cases(True, 12), exhaustive=True)]
